@@ -98,13 +98,22 @@ def check_property(pid, tier, seed):
             failed_ids = set()
             panic_fail = []
             unwind_fail = []
+            unsupported = []
             for desc, loc in r.failed:
                 if K.ID_RE.match(desc):
                     failed_ids.add(desc)
                 elif "unwinding assertion" in desc:
                     unwind_fail.append(desc)
+                elif "not currently supported by Kani" in desc or "is not supported" in desc:
+                    # a construct the tool cannot model (inline asm, ...): undecided, never an alarm
+                    unsupported.append(f"{desc[:120]} @ {loc}")
                 else:
                     panic_fail.append((desc, loc))
+            if unsupported:
+                undecided.append(f"{h.name}: unsupported construct: {unsupported[0]}")
+                for o in local:
+                    o.outcome, o.detail = "undecided", "unsupported construct reached"
+                continue
             if unwind_fail and h.unwind_fail_refutes:
                 panic_fail.append((f"loop does not terminate within the stated bound ({unwind_fail[0]})", ""))
                 unwind_fail = []
